@@ -8,7 +8,7 @@ sys.path.insert(0, HERE)
 CLAIMED = {
  'C02': dict(
     level='other', ref='DESIGN.md 4 C02',
-    technique='ast symbolic walk with constant-loop unrolling and local substitution to extract the flag/field tables, compared per bit; def-use and who-reads/who-verifies rules; guard dominance with linear atoms',
+    technique='ast symbolic walk with constant-loop unrolling and local substitution to extract the flag/field tables; finite-domain evaluation of the extracted conditions (all 256 flag bytes x a grid of allowed operands, all lengths 0..80) by a small interpreter of pure expression syntax instead of matching their spelling; def-use and who-reads/who-verifies rules; guard dominance with linear atoms',
     text='Decides the flag-table and plumbing clauses of C02 that a sampled test cannot (an error confined to one bit passes the suite): bit<->field bijection of the message builder and of the template check, per-bit subset check of the allowed-flags operand with equal masks before verification, one message builder shared by sign and check and fed the right flag byte, length guards dominating verification, and the true/false result mapping around verify. Ed25519 validity itself and corruption soundness are cryptographic and not decided.',
     note='Trusted: CPython ast, tsa analyser, PyNaCl verify/sign, nacl.bindings length constants (32/64). Stack items assumed bytes (C07.R1).'),
  'C03': dict(
@@ -28,17 +28,17 @@ CLAIMED = {
     note='Trusted: CPython ast, tsa analyser; hash/point commitments assumed binding.'),
  'C06': dict(
     level='other', ref='DESIGN.md 4 C06',
-    technique='ast typestate invariant over all sub-tape handlers (return-flag scoping), alias/copy classification of EVAL sub-tape fields, cross-table agreement query (VM table vs docs.md vs language_spec.md vs compiler/decompiler case labels), and an abstract counting interpretation of every handler over path sets (depth, low-water mark, operand stream) compared per operand sample with a hand-transcribed table of the documented stack effect and operand layout',
+    technique='ast typestate invariant over all sub-tape handlers (return-flag scoping), alias/copy classification of EVAL sub-tape fields, cross-table agreement query (VM table vs docs.md vs language_spec.md vs compiler/decompiler case labels), and an abstract counting interpretation of every handler over path sets (depth, low-water mark, operand stream) compared per operand sample with a hand-transcribed table of the documented stack effect and operand layout; def-use rule that typed instructions decode what they pop with the decoder of their documented operand type',
     text='Decides the clauses of C06 whose truth is in the shape of the code: RETURN scoping as an inductive invariant over every handler that runs a sub-tape (IF/IF_ELSE/TRY_EXCEPT transparent, CALL consumes, EVAL consumes unless eval_return, nothing may raise while the flag is pending), EVAL isolation (definitions and flags are copies), agreement of the five opcode tables, DEF binding unconditionally and giving the body the very definition table of the defining tape (late binding) / CALL running the named binding with the pointer of the definition tape saved, rewound and restored, and - for every op whose effect is a function of its tape operands - that every non-raising path needs and changes the stack depth exactly as documented for each operand sample including the boundary values 0/1/128/255, and reads exactly the documented operand fields. Which value an op computes (operand orders, numeric results, value-level boundary behaviour) quantifies over runtime values and is not decided.',
     note='Trusted: CPython ast, tsa analyser. Assumes handlers are reached only via run_tape dispatch or the handler->handler calls in the call graph.'),
  'C07': dict(
     level='other', ref='DESIGN.md 4 C07',
-    technique='ast who-may-call / guard-exactness / taint analysis: storage-access inventory, dominator + linear-atom truth tables for the limit guards, read-size kind classification, call-graph cycles through run_tape with depth-guard dominance, loop-variant recognition, value-taint from script-chosen integers to allocation sinks',
+    technique='ast who-may-call / guard-exactness / taint analysis: storage-access inventory, dominator + linear-atom truth tables for the limit guards, read-size kind classification, call-graph cycles through run_tape with depth-guard dominance, loop-variant recognition, value-taint from script-chosen integers to allocation sinks; return-shape rule for the Stack accessors (a stored item or raise) and a cannot-raise rule for guard messages of the VM classes',
     text='Decides necessary structural conditions of C07 on every run: all stack growth goes through the checked put and its three guards are exact (so the maxlen deque can never silently drop an item), Tape bounds are exact, no read size can be negative, tape.pointer is written only by its owners, recursion through run_tape is depth-accounted (four known findings), sequential drivers carry the call count of the tape that ran last into the next one, every loop has a recognised termination variant (for the counter-bounded OP_LOOP: guard first, counter strictly increased on every back edge, and start value and strictness of the guard admitting at most `limit` iterations), and no script-chosen integer reaches an allocation sink unbounded. Memory of big-integer arithmetic and non-limit Python exceptions are not decided.',
     note='Trusted: CPython ast, tsa analyser, deque/bytes semantics. Known findings (uncounted nesting of IF/IF_ELSE/TRY_EXCEPT/LOOP) listed in known_findings.json.'),
  'C08': dict(
     level='proof', ref='DESIGN.md 4 C08',
-    technique='ast who-may-write analysis: interprocedural fixpoint of cache holders, key-kind classification of every dict mutation site, in-place-mutation and escape rules',
+    technique='ast who-may-write analysis: interprocedural fixpoint of cache holders, key-kind classification of every dict mutation site, in-place-mutation and escape rules; key-kind classification of every lookup of the read accessor OP_GET_VALUE',
     text='Proof by exhaustive site enumeration: every statement that can mutate the run cache in any function reachable from run_tape (and in the top-level drivers) is found by an interprocedural who-holds-the-cache fixpoint, and each is shown to use a key whose kind cannot be str (bytes constant, bytes from tape/stack, or the private tuple sentinel); values loaded under str keys are never mutated in place and the cache never escapes to unanalysed code. With Python dict semantics and the premise of the property (no plugin/contract) this implies str-keyed entries are unchanged at every step of every script. All obligations must discharge for the proof level; evidence downgrades itself to other otherwise.',
     note='Trusted base: CPython ast, the tsa analyser, Python dict semantics; Tape.read returns bytes and Stack.put admits only bytes (both re-checked on every run as C08.T).'),
  'C09': dict(
